@@ -38,6 +38,8 @@ def run_variant(m, extract):
                 p = subprocess.run(["git", "-C", work, "apply"], input=diff, text=True, capture_output=True)
                 if p.returncode != 0:
                     return {"name": m["name"], "status": "skipped", "why": "working-tree diff of /repo does not apply to a fresh worktree"}
+            if os.path.exists(os.path.join(REPO, "Cargo.lock")) and not os.path.exists(os.path.join(work, "Cargo.lock")):
+                shutil.copy(os.path.join(REPO, "Cargo.lock"), os.path.join(work, "Cargo.lock"))
             p = subprocess.run(["git", "-C", work, "apply", os.path.join(m["dir"], "patch.diff")], capture_output=True, text=True)
             if p.returncode != 0:
                 return {"name": m["name"], "status": "skipped", "why": "variant patch no longer applies to the current /repo: %s" % p.stderr.strip()[:200]}
